@@ -1,11 +1,930 @@
-// Package c07 - correspondence harness for C07 (stub: not built yet).
+// Package c07 feeds the output of the real signing API (notation.SignBlob / notation.SignOCI
+// with a local GenericSigner, a GenericSigner from files, and PluginSigners over in-process
+// raw-signature and envelope plugins) into the real verification API (notation.VerifyBlob /
+// notation.Verify with verifier.NewVerifierWithOptions) and records what was signed, what
+// was verified, what was returned and what can be read back.
 package c07
 
 import (
+	"bytes"
+	"context"
+	"crypto"
+	"crypto/ecdsa"
+	"crypto/rand"
+	"crypto/rsa"
+	"crypto/sha256"
+	"crypto/sha512"
+	"crypto/x509"
+	"encoding/base64"
+	"encoding/hex"
+	"encoding/json"
+	"encoding/pem"
 	"errors"
+	"fmt"
+	"mime"
+	"os"
+	"path/filepath"
+	"sort"
+	"time"
 
+	"github.com/notaryproject/notation-core-go/signature"
+	"github.com/notaryproject/notation-go"
+	"github.com/notaryproject/notation-go/registry"
+	"github.com/notaryproject/notation-go/signer"
+	"github.com/notaryproject/notation-go/verifier"
+	"github.com/notaryproject/notation-go/verifier/trustpolicy"
 	"github.com/notaryproject/notation-go/xverif/common"
+	pluginfw "github.com/notaryproject/notation-plugin-framework-go/plugin"
+	"github.com/opencontainers/go-digest"
+	ocispec "github.com/opencontainers/image-spec/specs-go/v1"
+	"oras.land/oras-go/v2/content/memory"
 )
 
+// ---- JSON shapes of the Lean structures -------------------------------------------------
+
+type KV struct {
+	K string `json:"k"`
+	V string `json:"v"`
+}
+
+type FullDesc struct {
+	MediaType    string   `json:"mediaType"`
+	Digest       string   `json:"digest"`
+	Size         int64    `json:"size"`
+	Annotations  []KV     `json:"annotations"`
+	URLs         []string `json:"urls"`
+	Platform     bool     `json:"platform"`
+	Data         string   `json:"data"`
+	ArtifactType string   `json:"artifactType"`
+}
+
+type DescObs struct {
+	MediaType   string   `json:"mediaType"`
+	Digest      string   `json:"digest"`
+	Size        int64    `json:"size"`
+	Annotations []KV     `json:"annotations"`
+	ExtraKeys   []string `json:"extraKeys"`
+}
+
+type Blob struct {
+	Size   int64  `json:"size"`
+	SHA256 string `json:"sha256"`
+	SHA384 string `json:"sha384"`
+	SHA512 string `json:"sha512"`
+}
+
+type Input struct {
+	Kind             string   `json:"kind"`
+	KeySpec          string   `json:"keySpec"`
+	Format           string   `json:"format"`
+	Signer           string   `json:"signer"`
+	Desc             FullDesc `json:"desc"`
+	Blob             Blob     `json:"blob"`
+	ContentMediaType string   `json:"contentMediaType"`
+	MediaTypeValid   bool     `json:"mediaTypeValid"`
+	Metadata         []KV     `json:"metadata"`
+	DurationNs       int64    `json:"durationNs"`
+	NowFracNs        int64    `json:"nowFracNs"`
+	Agent            string   `json:"agent"`
+	VerifyMediaType  string   `json:"verifyMediaType"`
+	VerifyMetadata   string   `json:"verifyMetadata"`
+	LagSec           int64    `json:"lagSec"`
+	ExactIdentity    bool     `json:"exactIdentity"`
+	ByTag            bool     `json:"byTag"`
+}
+
+type Obs struct {
+	Signed       bool     `json:"signed"`
+	Verified     bool     `json:"verified"`
+	Payload      *DescObs `json:"payload"`
+	ExpirySec    *int64   `json:"expirySec"`
+	Returned     *DescObs `json:"returned"`
+	UserMetadata *[]KV    `json:"userMetadata"`
+}
+
+// ---- world --------------------------------------------------------------------------------
+
+var specOf = map[string]string{"rsa2048": "RSA-2048", "rsa3072": "RSA-3072", "rsa4096": "RSA-4096",
+	"ec256": "EC-256", "ec384": "EC-384", "ec521": "EC-521"}
+var specNames = []string{"rsa2048", "rsa3072", "rsa4096", "ec256", "ec384", "ec521"}
+var formatOf = map[string]string{"jws": common.MediaJWS, "cose": common.MediaCOSE}
+var signerKinds = []string{"localKey", "localFiles", "pluginSignature", "pluginEnvelope"}
+
+type keyWorld struct {
+	key      crypto.Signer
+	chain    *common.Chain
+	keyPath  string
+	certPath string
+	subject  string
+}
+
+type blobData struct {
+	content []byte
+	abs     Blob
+}
+
+type world struct {
+	c     *common.Ctx
+	keys  map[string]*keyWorld
+	store *common.MemStore
+	blobs map[int][]*blobData // by size class
+}
+
+func newWorld(c *common.Ctx) *world {
+	w := &world{c: c, keys: map[string]*keyWorld{}, store: common.NewMemStore(), blobs: map[int][]*blobData{}}
+	var roots []*x509.Certificate
+	for _, name := range specNames {
+		spec := specOf[name]
+		key := common.PoolKey(c.CacheDir, spec)
+		chain := common.MakeChain(common.ChainOpts{Tag: "c07-" + spec, LeafKey: key, Intermediate: name == "ec384" || name == "rsa3072"})
+		kw := &keyWorld{key: key, chain: chain}
+		der, err := x509.MarshalPKCS8PrivateKey(key)
+		if err != nil {
+			panic(err)
+		}
+		kw.keyPath = filepath.Join(c.WorkDir, "c07-"+spec+".key")
+		kw.certPath = filepath.Join(c.WorkDir, "c07-"+spec+".crt")
+		if err := os.WriteFile(kw.keyPath, pem.EncodeToMemory(&pem.Block{Type: "PRIVATE KEY", Bytes: der}), 0o600); err != nil {
+			panic(err)
+		}
+		if err := os.WriteFile(kw.certPath, common.PEM(chain.X509()...), 0o644); err != nil {
+			panic(err)
+		}
+		kw.subject = "x509.subject: CN=leaf c07-" + spec + ",O=Notary,ST=WA,C=US"
+		w.keys[name] = kw
+		roots = append(roots, chain.Root().Cert)
+	}
+	w.store.Certs["ca:c07"] = roots
+	return w
+}
+
+func digests(b []byte) Blob {
+	s256 := sha256.Sum256(b)
+	s384 := sha512.Sum384(b)
+	s512 := sha512.Sum512(b)
+	return Blob{Size: int64(len(b)), SHA256: "sha256:" + hex.EncodeToString(s256[:]),
+		SHA384: "sha384:" + hex.EncodeToString(s384[:]), SHA512: "sha512:" + hex.EncodeToString(s512[:])}
+}
+
+func (w *world) randBytes(n int) []byte {
+	b := make([]byte, n)
+	w.c.Rand.Read(b)
+	return b
+}
+
+// blob returns a blob of the size class (big ones come from a small pool).
+func (w *world) blob(size int) *blobData {
+	if size >= 1<<20 {
+		pool := w.blobs[size]
+		if len(pool) < 2 {
+			b := w.randBytes(size)
+			bd := &blobData{content: b, abs: digests(b)}
+			w.blobs[size] = append(pool, bd)
+			return bd
+		}
+		return pool[w.c.Rand.Intn(len(pool))]
+	}
+	b := w.randBytes(size)
+	return &blobData{content: b, abs: digests(b)}
+}
+
+// ---- honest in-process signing plugins -------------------------------------------------------
+
+type signPlugin struct {
+	kw       *keyWorld
+	spec     string
+	envelope bool
+}
+
+func (p *signPlugin) GetMetadata(ctx context.Context, req *pluginfw.GetMetadataRequest) (*pluginfw.GetMetadataResponse, error) {
+	cap := pluginfw.CapabilitySignatureGenerator
+	if p.envelope {
+		cap = pluginfw.CapabilityEnvelopeGenerator
+	}
+	return &pluginfw.GetMetadataResponse{Name: "c07-plugin", Description: "honest scripted signing plugin", Version: "1.0.0",
+		URL: "https://example.test/c07", SupportedContractVersions: []string{"1.0"}, Capabilities: []pluginfw.Capability{cap}}, nil
+}
+
+func (p *signPlugin) DescribeKey(ctx context.Context, req *pluginfw.DescribeKeyRequest) (*pluginfw.DescribeKeyResponse, error) {
+	return &pluginfw.DescribeKeyResponse{KeyID: req.KeyID, KeySpec: pluginfw.KeySpec(p.spec)}, nil
+}
+
+var hashOfName = map[pluginfw.HashAlgorithm]crypto.Hash{
+	pluginfw.HashAlgorithmSHA256: crypto.SHA256, pluginfw.HashAlgorithmSHA384: crypto.SHA384, pluginfw.HashAlgorithmSHA512: crypto.SHA512}
+
+func (p *signPlugin) GenerateSignature(ctx context.Context, req *pluginfw.GenerateSignatureRequest) (*pluginfw.GenerateSignatureResponse, error) {
+	if p.envelope {
+		return nil, errors.New("not a raw signature plugin")
+	}
+	if string(req.KeySpec) != p.spec {
+		return nil, fmt.Errorf("key spec %q is not the spec of the key (%s)", req.KeySpec, p.spec)
+	}
+	h, ok := hashOfName[req.Hash]
+	if !ok {
+		return nil, fmt.Errorf("unknown hash %q", req.Hash)
+	}
+	hh := h.New()
+	hh.Write(req.Payload)
+	dg := hh.Sum(nil)
+	var sig []byte
+	var alg pluginfw.SignatureAlgorithm
+	switch k := p.kw.key.(type) {
+	case *rsa.PrivateKey:
+		s, err := rsa.SignPSS(rand.Reader, k, h, dg, &rsa.PSSOptions{SaltLength: rsa.PSSSaltLengthEqualsHash})
+		if err != nil {
+			return nil, err
+		}
+		sig = s
+		alg = map[crypto.Hash]pluginfw.SignatureAlgorithm{crypto.SHA256: pluginfw.SignatureAlgorithmRSASSA_PSS_SHA256,
+			crypto.SHA384: pluginfw.SignatureAlgorithmRSASSA_PSS_SHA384, crypto.SHA512: pluginfw.SignatureAlgorithmRSASSA_PSS_SHA512}[h]
+	case *ecdsa.PrivateKey:
+		r, s, err := ecdsa.Sign(rand.Reader, k, dg)
+		if err != nil {
+			return nil, err
+		}
+		n := (k.Curve.Params().N.BitLen() + 7) / 8
+		sig = make([]byte, 2*n)
+		r.FillBytes(sig[:n])
+		s.FillBytes(sig[n:])
+		alg = map[crypto.Hash]pluginfw.SignatureAlgorithm{crypto.SHA256: pluginfw.SignatureAlgorithmECDSA_SHA256,
+			crypto.SHA384: pluginfw.SignatureAlgorithmECDSA_SHA384, crypto.SHA512: pluginfw.SignatureAlgorithmECDSA_SHA512}[h]
+	default:
+		return nil, errors.New("unsupported key")
+	}
+	var raw [][]byte
+	for _, c := range p.kw.chain.X509() {
+		raw = append(raw, c.Raw)
+	}
+	return &pluginfw.GenerateSignatureResponse{KeyID: req.KeyID, Signature: sig, SigningAlgorithm: alg, CertificateChain: raw}, nil
+}
+
+func (p *signPlugin) GenerateEnvelope(ctx context.Context, req *pluginfw.GenerateEnvelopeRequest) (*pluginfw.GenerateEnvelopeResponse, error) {
+	if !p.envelope {
+		return nil, errors.New("not an envelope plugin")
+	}
+	ls, err := signature.NewLocalSigner(p.kw.chain.X509(), p.kw.key)
+	if err != nil {
+		return nil, err
+	}
+	env, err := signature.NewEnvelope(req.SignatureEnvelopeType)
+	if err != nil {
+		return nil, err
+	}
+	sr := &signature.SignRequest{
+		Payload:       signature.Payload{ContentType: req.PayloadType, Content: req.Payload},
+		Signer:        ls,
+		SigningTime:   time.Now(),
+		SigningScheme: signature.SigningSchemeX509,
+		SigningAgent:  "c07-plugin/1.0.0",
+	}
+	if req.ExpiryDurationInSeconds != 0 {
+		sr.Expiry = sr.SigningTime.Add(time.Duration(req.ExpiryDurationInSeconds) * time.Second)
+	}
+	sig, err := env.Sign(sr)
+	if err != nil {
+		return nil, err
+	}
+	return &pluginfw.GenerateEnvelopeResponse{SignatureEnvelope: sig, SignatureEnvelopeType: req.SignatureEnvelopeType}, nil
+}
+
+func (p *signPlugin) VerifySignature(ctx context.Context, req *pluginfw.VerifySignatureRequest) (*pluginfw.VerifySignatureResponse, error) {
+	return nil, errors.New("not a verification plugin")
+}
+
+// ---- canonicalisation ------------------------------------------------------------------------
+
+func sortedKV(m map[string]string) []KV {
+	out := make([]KV, 0, len(m))
+	for k, v := range m {
+		out = append(out, KV{k, v})
+	}
+	sort.Slice(out, func(a, b int) bool { return out[a].K < out[b].K })
+	return out
+}
+
+func kvMap(kvs []KV) map[string]string {
+	if len(kvs) == 0 {
+		return nil
+	}
+	m := map[string]string{}
+	for _, x := range kvs {
+		m[x.K] = x.V
+	}
+	return m
+}
+
+// descObsFromMap reads the JSON object of a descriptor.
+func descObsFromMap(m map[string]json.RawMessage, extra []string) *DescObs {
+	o := &DescObs{Annotations: []KV{}, ExtraKeys: append([]string{}, extra...)}
+	for k, raw := range m {
+		switch k {
+		case "mediaType":
+			if json.Unmarshal(raw, &o.MediaType) != nil {
+				o.ExtraKeys = append(o.ExtraKeys, "!mediaType")
+			}
+		case "digest":
+			if json.Unmarshal(raw, &o.Digest) != nil {
+				o.ExtraKeys = append(o.ExtraKeys, "!digest")
+			}
+		case "size":
+			if json.Unmarshal(raw, &o.Size) != nil {
+				o.ExtraKeys = append(o.ExtraKeys, "!size")
+			}
+		case "annotations":
+			var a map[string]string
+			if json.Unmarshal(raw, &a) != nil {
+				o.ExtraKeys = append(o.ExtraKeys, "!annotations")
+			}
+			o.Annotations = sortedKV(a)
+		default:
+			o.ExtraKeys = append(o.ExtraKeys, k)
+		}
+	}
+	sort.Strings(o.ExtraKeys)
+	return o
+}
+
+func descObsOf(d ocispec.Descriptor) *DescObs {
+	b, err := json.Marshal(d)
+	if err != nil {
+		panic(err)
+	}
+	var m map[string]json.RawMessage
+	if err := json.Unmarshal(b, &m); err != nil {
+		panic(err)
+	}
+	return descObsFromMap(m, nil)
+}
+
+// payloadObs reads the payload `{"targetArtifact": {...}}` as it is in the envelope.
+func payloadObs(content []byte) *DescObs {
+	var top map[string]json.RawMessage
+	if err := json.Unmarshal(content, &top); err != nil {
+		return &DescObs{Annotations: []KV{}, ExtraKeys: []string{"!payload"}}
+	}
+	var extra []string
+	var ta map[string]json.RawMessage
+	for k, raw := range top {
+		if k == "targetArtifact" {
+			if err := json.Unmarshal(raw, &ta); err != nil {
+				extra = append(extra, "!targetArtifact")
+			}
+		} else {
+			extra = append(extra, "/"+k)
+		}
+	}
+	if ta == nil {
+		extra = append(extra, "!noTargetArtifact")
+	}
+	return descObsFromMap(ta, extra)
+}
+
+// ---- one round trip ------------------------------------------------------------------------------
+
+type signedCase struct {
+	in       Input
+	obs      Obs
+	sig      []byte // blob: the signature
+	repo     registry.Repository
+	ref      string
+	content  []byte // blob content
+	signTime time.Time
+	expiry   time.Time
+	signedMT string
+}
+
+func (w *world) newVerifier(in Input) (interface {
+	notation.Verifier
+	notation.BlobVerifier
+}, error) {
+	kw := w.keys[in.KeySpec]
+	ids := []string{"*"}
+	if in.ExactIdentity {
+		ids = []string{kw.subject}
+	}
+	sv := trustpolicy.SignatureVerification{VerificationLevel: "strict",
+		Override: map[trustpolicy.ValidationType]trustpolicy.ValidationAction{trustpolicy.TypeRevocation: trustpolicy.ActionSkip}}
+	opts := verifier.VerifierOptions{
+		OCITrustPolicy: &trustpolicy.OCIDocument{Version: "1.0", TrustPolicies: []trustpolicy.OCITrustPolicy{{
+			Name: "c07", RegistryScopes: []string{"*"}, SignatureVerification: sv,
+			TrustStores: []string{"ca:c07"}, TrustedIdentities: ids}}},
+		BlobTrustPolicy: &trustpolicy.BlobDocument{Version: "1.0", TrustPolicies: []trustpolicy.BlobTrustPolicy{{
+			Name: "c07", SignatureVerification: sv, TrustStores: []string{"ca:c07"}, TrustedIdentities: ids, GlobalPolicy: true}}},
+	}
+	return verifier.NewVerifierWithOptions(w.store, opts)
+}
+
+type bothSigner interface {
+	notation.Signer
+	notation.BlobSigner
+}
+
+func (w *world) newSigner(in Input) bothSigner {
+	kw := w.keys[in.KeySpec]
+	switch in.Signer {
+	case "localKey":
+		s, err := signer.NewGenericSigner(kw.key, kw.chain.X509())
+		if err != nil {
+			panic(fmt.Sprintf("c07: NewGenericSigner: %v", err))
+		}
+		return s
+	case "localFiles":
+		// NewFromFiles is NewGenericSignerFromFiles behind the notation.Signer interface
+		if _, err := signer.NewFromFiles(kw.keyPath, kw.certPath); err != nil {
+			panic(fmt.Sprintf("c07: NewFromFiles: %v", err))
+		}
+		s, err := signer.NewGenericSignerFromFiles(kw.keyPath, kw.certPath)
+		if err != nil {
+			panic(fmt.Sprintf("c07: NewGenericSignerFromFiles: %v", err))
+		}
+		return s
+	case "pluginSignature", "pluginEnvelope":
+		s, err := signer.NewPluginSigner(&signPlugin{kw: kw, spec: specOf[in.KeySpec], envelope: in.Signer == "pluginEnvelope"}, "c07-key", nil)
+		if err != nil {
+			panic(fmt.Sprintf("c07: NewPluginSigner: %v", err))
+		}
+		return s
+	}
+	panic("c07: signer kind " + in.Signer)
+}
+
+func wantedMetadata(in Input) map[string]string {
+	switch in.VerifyMetadata {
+	case "all":
+		return kvMap(in.Metadata)
+	case "wrong":
+		m := kvMap(in.Metadata)
+		if m == nil {
+			m = map[string]string{}
+		}
+		m["c07.not.signed"] = "x"
+		return m
+	}
+	return nil
+}
+
+// ociDescriptor concretises the abstract resolved descriptor.
+func ociDescriptor(d FullDesc) ocispec.Descriptor {
+	desc := ocispec.Descriptor{MediaType: d.MediaType, Digest: digest.Digest(d.Digest), Size: d.Size,
+		Annotations: kvMap(d.Annotations), ArtifactType: d.ArtifactType}
+	if len(d.URLs) > 0 {
+		desc.URLs = d.URLs
+	}
+	if d.Platform {
+		desc.Platform = &ocispec.Platform{Architecture: "amd64", OS: "linux"}
+	}
+	if d.Data != "" {
+		b, err := base64.StdEncoding.DecodeString(d.Data)
+		if err != nil {
+			panic(err)
+		}
+		desc.Data = b
+	}
+	return desc
+}
+
+const tagName = "v1"
+
+// sign runs the signing API; content is the artifact (oci) or the blob.
+func (w *world) sign(in Input, content []byte) *signedCase {
+	ctx := context.Background()
+	sc := &signedCase{in: in, content: content}
+	s := w.newSigner(in)
+	sso := notation.SignerSignOptions{SignatureMediaType: formatOf[in.Format], ExpiryDuration: time.Duration(in.DurationNs), SigningAgent: in.Agent}
+	var sig []byte
+	sigMT := formatOf[in.Format]
+	if in.Kind == "blob" {
+		b, _, err := notation.SignBlob(ctx, s, bytes.NewReader(content), notation.SignBlobOptions{
+			SignerSignOptions: sso, ContentMediaType: in.ContentMediaType, UserMetadata: kvMap(in.Metadata)})
+		if err != nil {
+			return sc
+		}
+		sig = b
+		sc.sig = b
+	} else {
+		store := memory.New()
+		desc := ociDescriptor(in.Desc)
+		if err := store.Push(ctx, ocispec.Descriptor{MediaType: desc.MediaType, Digest: desc.Digest, Size: desc.Size}, bytes.NewReader(content)); err != nil {
+			panic(fmt.Sprintf("c07: push artifact: %v", err))
+		}
+		if err := store.Tag(ctx, desc, desc.Digest.String()); err != nil {
+			panic(err)
+		}
+		if err := store.Tag(ctx, desc, tagName); err != nil {
+			panic(err)
+		}
+		repo := registry.NewRepository(store)
+		sc.repo = repo
+		// the built-in verifier's trust policy lookup needs a digest reference; signing may go by tag
+		sc.ref = "reg.example/c07@" + desc.Digest.String()
+		signRef := sc.ref
+		if in.ByTag {
+			signRef = "reg.example/c07:" + tagName
+		}
+		_, _, err := notation.SignOCI(ctx, s, repo, notation.SignOptions{SignerSignOptions: sso, ArtifactReference: signRef, UserMetadata: kvMap(in.Metadata)})
+		if err != nil {
+			return sc
+		}
+		// read the pushed signature back through the real repository client
+		n := 0
+		err = repo.ListSignatures(ctx, desc, func(ms []ocispec.Descriptor) error {
+			for _, m := range ms {
+				b, bd, err := repo.FetchSignatureBlob(ctx, m)
+				if err != nil {
+					return err
+				}
+				sig, sigMT = b, bd.MediaType
+				n++
+			}
+			return nil
+		})
+		if err != nil || n != 1 {
+			panic(fmt.Sprintf("c07: expected exactly one pushed signature, got %d (%v)", n, err))
+		}
+	}
+	sc.obs.Signed = true
+	env, err := signature.ParseEnvelope(sigMT, sig)
+	if err != nil {
+		panic(fmt.Sprintf("c07: produced signature does not parse: %v", err))
+	}
+	ec, err := env.Content()
+	if err != nil {
+		panic(fmt.Sprintf("c07: produced signature has no content: %v", err))
+	}
+	sc.obs.Payload = payloadObs(ec.Payload.Content)
+	st, ex := ec.SignerInfo.SignedAttributes.SigningTime, ec.SignerInfo.SignedAttributes.Expiry
+	sc.signTime, sc.expiry = st, ex
+	if !ex.IsZero() {
+		d := ex.Sub(st)
+		v := int64(d / time.Second)
+		if d%time.Second != 0 || st.Nanosecond() != 0 {
+			v = -999 // sub-second times never match the model
+		}
+		sc.obs.ExpirySec = &v
+	}
+	return sc
+}
+
+// verify runs the verification API on a signed case and completes the observation.
+func (w *world) verify(sc *signedCase) Obs {
+	ctx := context.Background()
+	in, o := sc.in, sc.obs
+	v, err := w.newVerifier(in)
+	if err != nil {
+		panic(fmt.Sprintf("c07: NewVerifierWithOptions: %v", err))
+	}
+	var outcome *notation.VerificationOutcome
+	var returned ocispec.Descriptor
+	if in.Kind == "blob" {
+		stated := map[string]string{"same": in.ContentMediaType, "unstated": "", "other": "application/x-c07-other"}[in.VerifyMediaType]
+		d, vo, err := notation.VerifyBlob(ctx, v, bytes.NewReader(sc.content), sc.sig, notation.VerifyBlobOptions{
+			BlobVerifierVerifyOptions: notation.BlobVerifierVerifyOptions{SignatureMediaType: formatOf[in.Format], UserMetadata: wantedMetadata(in)},
+			ContentMediaType:          stated})
+		if err != nil {
+			return o
+		}
+		returned, outcome = d, vo
+	} else {
+		d, vos, err := notation.Verify(ctx, v, sc.repo, notation.VerifyOptions{ArtifactReference: sc.ref, MaxSignatureAttempts: 5, UserMetadata: wantedMetadata(in)})
+		if err != nil {
+			return o
+		}
+		if len(vos) != 1 {
+			panic("c07: notation.Verify succeeded without exactly one outcome")
+		}
+		returned, outcome = d, vos[0]
+	}
+	o.Verified = true
+	if outcome.EnvelopeContent == nil {
+		panic("c07: verified outcome without envelope content")
+	}
+	// the verified payload is what the outcome reports
+	o.Payload = payloadObs(outcome.EnvelopeContent.Payload.Content)
+	o.Returned = descObsOf(returned)
+	md, err := outcome.UserMetadata()
+	if err != nil {
+		panic(fmt.Sprintf("c07: UserMetadata: %v", err))
+	}
+	kvs := sortedKV(md)
+	o.UserMetadata = &kvs
+	return o
+}
+
+// roundTrip signs and verifies immediately; short expiries are aligned to the clock so that the
+// planned lag (0 s) is the real one.
+func (w *world) roundTrip(in Input, content []byte) Obs {
+	short := in.DurationNs > 0 && in.DurationNs < int64(10*time.Second)
+	for attempt := 0; ; attempt++ {
+		if short {
+			if ns := time.Now().Nanosecond(); ns > 250_000_000 {
+				time.Sleep(time.Duration(1_000_000_000-ns) + 2*time.Millisecond)
+			}
+		}
+		sc := w.sign(in, content)
+		if !sc.obs.Signed {
+			return sc.obs
+		}
+		o := w.verify(sc)
+		if !short || sc.expiry.IsZero() || time.Now().Before(sc.expiry) {
+			return o
+		}
+		if attempt >= 5 {
+			panic("c07: cannot complete a round trip within a short expiry")
+		}
+	}
+}
+
+// ---- generator ----------------------------------------------------------------------------------------
+
+func pick[T any](c *common.Ctx, xs []T) T  { return xs[c.Rand.Intn(len(xs))] }
+func chance(c *common.Ctx, p float64) bool { return c.Rand.Float64() < p }
+
+var annotationKeys = []string{"org.opencontainers.image.created", "vendor", "buildId", "commit", "k", "ünïcode-ключ", "a.b/c", "io.cncf.notary.x509chain.thumbprint#S256", "Z", "zz"}
+var metadataKeys = []string{"buildId", "commit", "k", "ünïcode-ключ", "team", "Z", "zz", "io.cncf.notar", "IO.CNCF.NOTARY.upper", "0"}
+var reservedKeys = []string{"io.cncf.notary", "io.cncf.notary.foo", "io.cncf.notaryx", "io.cncf.notary.x509chain.thumbprint#S256"}
+var values = []string{"", "1", "v", "a b", "ü✓", "{\"json\":true}", "0123456789abcdef0123456789abcdef", "line1\nline2"}
+var ociMediaTypes = []string{ocispec.MediaTypeImageManifest, ocispec.MediaTypeImageIndex, "application/vnd.c07.custom.v1+json", "application/octet-stream"}
+var blobMediaTypes = []string{"application/octet-stream", "text/plain; charset=utf-8", "application/vnd.example+json;version=1", "a/b",
+	"application/vnd.c07.blob", "video/mp4; codecs=\"avc1.640028\""}
+var badBlobMediaTypes = []string{"", "application/", "text/plain; charset", "a/b; x=1; x=2", "/nothing"}
+var agents = []string{"", "c07-agent/1.0", "weird agent ✓ (x)"}
+var legalDurations = []time.Duration{0, time.Second, 2 * time.Second, time.Minute, time.Hour, 24 * time.Hour, 8760 * time.Hour}
+var illegalDurations = []time.Duration{1500 * time.Millisecond, time.Nanosecond, 999_999_999 * time.Nanosecond, time.Second + time.Nanosecond,
+	24*time.Hour + time.Millisecond, -time.Second, -time.Nanosecond, -1500 * time.Millisecond}
+var keyWeights = []struct {
+	name string
+	w    float64
+}{{"ec256", 0.30}, {"ec384", 0.20}, {"ec521", 0.18}, {"rsa2048", 0.14}, {"rsa3072", 0.10}, {"rsa4096", 0.08}}
+
+func genKV(c *common.Ctx, keys []string, n int) []KV {
+	m := map[string]string{}
+	for len(m) < n {
+		m[pick(c, keys)] = pick(c, values)
+	}
+	return sortedKV(m)
+}
+
+func genKeySpec(c *common.Ctx) string {
+	r := c.Rand.Float64()
+	for _, k := range keyWeights {
+		if r < k.w {
+			return k.name
+		}
+		r -= k.w
+	}
+	return "ec256"
+}
+
+// genArtifact makes a content the memory store accepts for the media type, and its descriptor.
+func (w *world) genArtifact(c *common.Ctx) (FullDesc, []byte) {
+	mt := pick(c, ociMediaTypes)
+	var content []byte
+	switch mt {
+	case ocispec.MediaTypeImageManifest:
+		content = []byte(fmt.Sprintf(`{"schemaVersion":2,"mediaType":%q,"config":{"mediaType":"application/vnd.oci.empty.v1+json","digest":"sha256:44136fa355b3678a1146ad16f7e8649e94fb4fc21fe77e8310c060f61caaff8a","size":2},"layers":[],"annotations":{"n":"%d"}}`, mt, c.Rand.Int63()))
+	case ocispec.MediaTypeImageIndex:
+		content = []byte(fmt.Sprintf(`{"schemaVersion":2,"mediaType":%q,"manifests":[],"annotations":{"n":"%d"}}`, mt, c.Rand.Int63()))
+	default:
+		content = w.randBytes(c.Rand.Intn(200))
+	}
+	abs := digests(content)
+	d := FullDesc{MediaType: mt, Digest: abs.SHA256, Size: abs.Size, Annotations: []KV{}, URLs: []string{}}
+	if chance(c, 0.15) {
+		d.Digest = abs.SHA512
+	}
+	if chance(c, 0.6) {
+		d.Annotations = genKV(c, annotationKeys, 1+c.Rand.Intn(3))
+	}
+	if chance(c, 0.4) {
+		d.URLs = []string{"https://example.test/blob"}
+		if chance(c, 0.3) {
+			d.URLs = append(d.URLs, "https://mirror.example.test/blob")
+		}
+	}
+	d.Platform = chance(c, 0.35)
+	if chance(c, 0.3) {
+		d.Data = base64.StdEncoding.EncodeToString(content)
+		if d.Data == "" {
+			d.Data = base64.StdEncoding.EncodeToString([]byte("x"))
+		}
+	}
+	if chance(c, 0.3) {
+		d.ArtifactType = "application/vnd.c07.artifact"
+	}
+	return d, content
+}
+
+var blobSizes = []int{0, 1, 1 << 10, 1 << 20, 4 << 20}
+
+func (w *world) genBlob(c *common.Ctx) *blobData {
+	r := c.Rand.Float64()
+	switch {
+	case r < 0.12:
+		return w.blob(0)
+	case r < 0.24:
+		return w.blob(1)
+	case r < 0.44:
+		return w.blob(1 << 10)
+	case r < 0.52:
+		return w.blob(1 << 20)
+	case r < 0.57:
+		return w.blob(4 << 20)
+	}
+	return w.blob(2 + c.Rand.Intn(5000))
+}
+
+func zeroDesc() FullDesc { return FullDesc{Annotations: []KV{}, URLs: []string{}} }
+
+// genCase draws one abstract case and the content it is about.
+func (w *world) genCase(c *common.Ctx) (Input, []byte) {
+	in := Input{Desc: zeroDesc(), Metadata: []KV{}, VerifyMediaType: "same", VerifyMetadata: "nothing"}
+	in.Kind = pick(c, []string{"oci", "blob"})
+	in.KeySpec = genKeySpec(c)
+	in.Format = pick(c, []string{"jws", "cose"})
+	in.Signer = pick(c, signerKinds)
+	in.NowFracNs = c.Rand.Int63n(1_000_000_000)
+	in.Agent = pick(c, agents)
+	in.ExactIdentity = chance(c, 0.4)
+	var content []byte
+	if in.Kind == "oci" {
+		in.Desc, content = w.genArtifact(c)
+		in.ByTag = chance(c, 0.4)
+	} else {
+		bd := w.genBlob(c)
+		in.Blob, content = bd.abs, bd.content
+		in.ContentMediaType = pick(c, blobMediaTypes)
+		if chance(c, 0.08) {
+			in.ContentMediaType = pick(c, badBlobMediaTypes)
+		}
+		if in.ContentMediaType != "" {
+			_, _, err := mime.ParseMediaType(in.ContentMediaType)
+			in.MediaTypeValid = err == nil
+		} else {
+			in.MediaTypeValid = true // never asked
+		}
+		switch r := c.Rand.Float64(); {
+		case r < 0.2:
+			in.VerifyMediaType = "unstated"
+		case r < 0.3:
+			in.VerifyMediaType = "other"
+		}
+	}
+	// user metadata
+	if chance(c, 0.65) {
+		in.Metadata = genKV(c, metadataKeys, 1+c.Rand.Intn(3))
+		if chance(c, 0.10) {
+			in.Metadata = sortedKV(mergeMaps(kvMap(in.Metadata), map[string]string{pick(c, reservedKeys): pick(c, values)}))
+		}
+		if in.Kind == "oci" && len(in.Desc.Annotations) > 0 && chance(c, 0.12) {
+			// collide with an annotation of the artifact (same or different value)
+			a := pick(c, in.Desc.Annotations)
+			v := a.V
+			if chance(c, 0.5) {
+				v = pick(c, values)
+			}
+			in.Metadata = sortedKV(mergeMaps(kvMap(in.Metadata), map[string]string{a.K: v}))
+		}
+	}
+	switch r := c.Rand.Float64(); {
+	case r < 0.35:
+		in.VerifyMetadata = "all"
+	case r < 0.47:
+		in.VerifyMetadata = "wrong"
+	}
+	// expiry
+	if chance(c, 0.12) {
+		in.DurationNs = int64(pick(c, illegalDurations))
+	} else {
+		in.DurationNs = int64(pick(c, legalDurations))
+	}
+	return in, content
+}
+
+func mergeMaps(a, b map[string]string) map[string]string {
+	out := map[string]string{}
+	for k, v := range a {
+		out[k] = v
+	}
+	for k, v := range b {
+		out[k] = v
+	}
+	return out
+}
+
+func count(c *common.Ctx, in Input, o Obs) {
+	c.Count("kind=" + in.Kind)
+	c.Count("key=" + in.KeySpec)
+	c.Count("format=" + in.Format)
+	c.Count("signer=" + in.Signer)
+	c.Count(fmt.Sprintf("signed=%v", o.Signed))
+	c.Count(fmt.Sprintf("verified=%v", o.Verified))
+	if in.Kind == "blob" {
+		sz := "other"
+		for _, s := range blobSizes {
+			if int64(s) == in.Blob.Size {
+				sz = fmt.Sprint(s)
+			}
+		}
+		c.Count("blobSize=" + sz)
+		c.Count("verifyMediaType=" + in.VerifyMediaType)
+	} else {
+		c.Count(fmt.Sprintf("descExtras=%v", len(in.Desc.URLs) > 0 || in.Desc.Platform || in.Desc.Data != "" || in.Desc.ArtifactType != ""))
+	}
+	c.Count(fmt.Sprintf("metadataKeys=%d", len(in.Metadata)))
+	c.Count("verifyMetadata=" + in.VerifyMetadata)
+	switch {
+	case in.DurationNs == 0:
+		c.Count("duration=none")
+	case in.DurationNs < 0:
+		c.Count("duration=negative")
+	case in.DurationNs%int64(time.Second) != 0:
+		c.Count("duration=subsecond")
+	default:
+		c.Count("duration=whole")
+	}
+	if in.LagSec > 0 {
+		c.Count("verifiedAfterExpiry")
+	}
+}
+
 // Run generates the cases of C07.
-func Run(c *common.Ctx) error { return errors.New("C07: harness not built yet") }
+func Run(c *common.Ctx) error {
+	w := newWorld(c)
+	random := 230
+	delayed := 6
+	if c.Thorough() {
+		random, delayed = 4900, 40
+	}
+	emit := func(in Input, o Obs) {
+		count(c, in, o)
+		c.Emit(in, o)
+	}
+
+	// (1) delayed verification: sign now with a short expiry, verify after it has passed
+	var pending []*signedCase
+	for n := 0; n < delayed; n++ {
+		in, content := w.genCase(c)
+		in.Metadata = genKV(c, metadataKeys[:7], c.Rand.Intn(3))
+		if in.Kind == "blob" {
+			in.ContentMediaType, in.MediaTypeValid = pick(c, blobMediaTypes), true
+		} else {
+			in.Metadata = []KV{}
+		}
+		in.VerifyMediaType, in.VerifyMetadata = "same", pick(c, []string{"nothing", "all"})
+		secs := int64(1 + c.Rand.Intn(2))
+		in.DurationNs = secs * int64(time.Second)
+		in.LagSec = secs + int64(c.Rand.Intn(2))
+		sc := w.sign(in, content)
+		if !sc.obs.Signed {
+			panic("c07: a legal case with a short expiry was refused")
+		}
+		pending = append(pending, sc)
+	}
+
+	// (2) the full matrix key spec x format x signer x kind with plain legal arguments
+	for _, ks := range specNames {
+		for _, f := range []string{"jws", "cose"} {
+			for _, s := range signerKinds {
+				for _, kind := range []string{"oci", "blob"} {
+					in, content := w.genCase(c)
+					for in.Kind != kind {
+						in, content = w.genCase(c)
+					}
+					in.KeySpec, in.Format, in.Signer = ks, f, s
+					in.Metadata = genKV(c, metadataKeys[:7], 1+c.Rand.Intn(2))
+					if kind == "oci" {
+						// keep the metadata clear of the artifact's annotations
+						in.Desc.Annotations = genKV(c, []string{"org.opencontainers.image.created", "vendor", "a.b/c"}, c.Rand.Intn(3))
+					} else {
+						in.ContentMediaType, in.MediaTypeValid = pick(c, blobMediaTypes), true
+					}
+					in.VerifyMediaType, in.VerifyMetadata = pick(c, []string{"same", "unstated"}), pick(c, []string{"nothing", "all"})
+					in.DurationNs = int64(pick(c, legalDurations))
+					emit(in, w.roundTrip(in, content))
+				}
+			}
+		}
+	}
+
+	// (3) random cases
+	for n := 0; n < random; n++ {
+		in, content := w.genCase(c)
+		emit(in, w.roundTrip(in, content))
+	}
+
+	// (4) complete the delayed cases
+	for _, sc := range pending {
+		if wait := time.Until(sc.signTime.Add(time.Duration(sc.in.LagSec)*time.Second + 20*time.Millisecond)); wait > 0 {
+			time.Sleep(wait)
+		}
+		emit(sc.in, w.verify(sc))
+	}
+
+	c.Note("real notation.SignBlob/SignOCI (GenericSigner from key, from files, PluginSigner over honest in-process raw-signature and envelope plugins) " +
+		"fed to real notation.VerifyBlob/Verify (verifier.NewVerifierWithOptions, in-memory trust store, strict policy, revocation skipped, wildcard or exact identity); " +
+		"OCI cases go through registry.NewRepository over an oras memory store whose Resolve returns the generated descriptor with urls/platform/data/artifactType; " +
+		"full matrix 6 key specs x 2 formats x 4 signers x {oci, blob} plus random cases (legal and illegal metadata / durations / media types, " +
+		"blob sizes 0 B..4 MiB, verification stating the same / no / another media type and none / all / unsigned metadata) plus verification after a short expiry; " +
+		"lagSec is the planned class of the verification delay (0 = before the expiry, ensured by clock alignment and re-tried otherwise).")
+	return nil
+}
